@@ -305,6 +305,12 @@ class Screen(BaseScreen, RealTerminal):
                         keys.extend(new_keys)
                     break
 
+            if self._partial_codes and not self._wait_for_input_ready(self.complete_wait):
+                # an incomplete sequence read while throttling: time it out here as well
+                more_keys, more_raw = self.parse_input(None, None, self.get_available_raw_input(), wait_for_more=False)
+                keys.extend(more_keys)
+                raw = [*raw, *more_raw]
+
         if keys == ["window resize"]:
             self.prev_input_resize = 2
         elif self.prev_input_resize == 2 and not keys:
